@@ -180,11 +180,47 @@ fn generation_axis(family: &str, problem: &PProblem, cfg: &SolveCfg, report: &mu
     }
 }
 
+/// Interruption INSIDE particular operators: problems with three and more tours / conditional jobs / relations (also under a
+/// goal which does not put the unassigned jobs first), solved with a hyper-heuristic made of ONE operator.
+fn operator_slice(tier: Tier) -> Vec<(String, PProblem)> {
+    let mut out: Vec<(String, PProblem)> = vec![];
+    let fleet4: Vec<PProblem> = family_fleet4(tier).into_iter().step_by(tier.pick(3, 1)).map(|p| p.fit_matrices()).collect();
+    for p in &fleet4 {
+        out.push(("fleet4".to_string(), p.clone()));
+        let mut q = p.clone();
+        q.name = format!("{}/cost-only", q.name);
+        q.objectives = Some(json!([{"type": "minimize-cost"}]));
+        out.push(("fleet4-goals".to_string(), q));
+    }
+    out.extend(family_mixed10().into_iter().take(tier.pick(1, 3)).map(|p| ("mixed10".to_string(), p)));
+    out.extend(family_combo(2).into_iter().step_by(tier.pick(29, 5)).map(|p| ("combo".to_string(), p)));
+    out
+}
+
+fn operator_cfgs() -> Vec<SolveCfg> {
+    [HyperKind::Decompose, HyperKind::Infeasible, HyperKind::Redistribute, HyperKind::LkhDiverse]
+        .into_iter()
+        .map(|hyper| SolveCfg { population: PopKind::Greedy, hyper, generations: 2, seed: 4, ..SolveCfg::default() })
+        .collect()
+}
+
 pub fn worker(ctx: &RunCtx, shard: usize, of: usize, _extra: &Extra) -> Report {
     let mut report = Report::new("fault_enumeration");
     let problems = slice(ctx.tier);
     let cfgs = cfgs(ctx.tier);
     let mut idx = 0;
+    for (family, problem) in &operator_slice(ctx.tier) {
+        for cfg in &operator_cfgs() {
+            idx += 1;
+            if idx % of != shard {
+                continue;
+            }
+            let before = report.get_count("crash_points");
+            quota_axis(family, problem, cfg, &mut report);
+            report.add_count("crash_points_inside_single_operators", report.get_count("crash_points") - before);
+            report.add_count("scenarios", 1);
+        }
+    }
     for (family, problem) in &problems {
         for cfg in &cfgs {
             idx += 1;
@@ -221,7 +257,12 @@ pub fn run(ctx: &RunCtx) -> Report {
 pub fn replay(ctx: &RunCtx, scenario: &Value) -> Result<Vec<Violation>, String> {
     let family = scenario["family"].as_str().ok_or("family")?;
     let name = scenario["problem"].as_str().ok_or("problem")?;
-    let (family, problem) = slice(Tier::Thorough).into_iter().chain(slice(Tier::Quick)).find(|(f, p)| f == family && p.name == name).ok_or("problem not in slice")?;
+    let (family, problem) = slice(Tier::Thorough)
+        .into_iter()
+        .chain(slice(Tier::Quick))
+        .chain(operator_slice(Tier::Thorough))
+        .find(|(f, p)| f == family && p.name == name)
+        .ok_or("problem not in slice")?;
     let cfg = SolveCfg::from_json(&scenario["cfg"]);
     let mut report = Report::new("fault_enumeration");
     match scenario["axis"].as_str().unwrap_or("") {
